@@ -666,6 +666,12 @@ pub fn build_default_config(conf: &crate::config::Config, request: &DHCPRequest)
             if let super::config::Prefix::V4(p4) = prefix {
                 use crate::config::Match as _;
                 use crate::config::PrefixOps as _;
+                /* A /31 or /32 has no addresses between the network and broadcast address, and a
+                 * /0 cannot be expanded into an address pool.
+                 */
+                if p4.prefixlen == 0 || p4.prefixlen > 30 {
+                    return None;
+                }
                 let subnet = erbium_net::Ipv4Subnet::new(p4.network(), p4.prefixlen).ok()?;
                 let mut ret = config::Policy {
                     match_subnet: Some(subnet),
